@@ -15,6 +15,7 @@ package frugal
 
 import (
 	"bytes"
+	"fmt"
 	"sync"
 	"time"
 
@@ -319,6 +320,10 @@ func (f *fNatsServer) worker() {
 // subject.
 func (f *fNatsServer) processFrame(frame *frameWrapper) error {
 	// Read and process frame.
+	if len(frame.frameBytes) < 4 {
+		return thrift.NewTProtocolExceptionWithType(thrift.INVALID_DATA,
+			fmt.Errorf("frugal: invalid frame size %d", len(frame.frameBytes)))
+	}
 	input := &thrift.TMemoryBuffer{Buffer: bytes.NewBuffer(frame.frameBytes[4:])} // Discard frame size
 	// Only allow 1MB to be buffered.
 	output := NewTMemoryOutputBuffer(natsMaxMessageSize)
